@@ -135,6 +135,18 @@ CLAIMED['C11'] = dict(
           "Known finding: astm_grain_size_number is unit-bound by design."),
     ref="DESIGN.md section 4 C11")
 
+CLAIMED['C19'] = dict(
+    technique="Coq proofs by induction over the velocity arrays (Q, field) + regenerated entry/exit formulas; model tied to the nested source functions by differential runs",
+    text=("Theorems for arrays of any length and any non-zero areas: after the backward pass every pass carries the flux of the last "
+          "pass whose velocity is untouched (hence exactly the prescribed final speed), after the forward pass the flux of the first; "
+          "the out profile runs at the pass velocity and the in profile's velocity times its area equals the out flux (formulas "
+          "regenerated from the hook implementations). The array model is run against the nested functions extracted from the "
+          "current source text. Whether the final solve reproduces the areas used depends on plugged-in models (partial)."),
+    note=("Trusted: Coq kernel (Q theorems closed; entry/exit theorem uses the Reals axioms); ast extraction of the nested functions; "
+          "translator T-A; real sequences checked with tolerance 0.05 on velocities (5x loop tolerance) and 2x iteration precision for the "
+          "lagged in-profile velocity."),
+    ref="DESIGN.md section 4 C19")
+
 NOT_YET = {}
 
 
